@@ -88,7 +88,7 @@ def run(ctx):
     res = tlc.run_tlc(wd, "MC_Range", dump=True, heap="8g")
     ctx.add_tlc("Range", res, K)
     if res.violated:
-        raise common.MachineryError("Range.tla violates %s:\n%s" % (res.violated, res.stdout[-1500:]))
+        raise common.MachineryError("Range.tla: " + tlc.describe(res))
     tlc.check_coverage(res, ACTIONS)
 
     # standing witness: the pre-repair mechanism must violate the invariants
